@@ -41,6 +41,9 @@ def menus(prop, tier):
     m3 = [op("J", 1, 2), op("J", 2, 3), op("J", 3, 1), op("A", 2, n=1)]
     plans.append(dict(name="cycle3", NL=3, Writer0=[1, 2, 3], MaxSetup=4, Menu=m3, NProcs=3,
                       FixedSetup=[("A", 1, 1), ("A", 2, 1), ("A", 3, 1), ("J", 1, 3)]))
+    # M=1 holds m1, B=3 merged M and appended on top, A=2 has its own entry; M merges from A while A merges from B
+    plans.append(dict(name="relay3", NL=3, Writer0=[1, 2, 3], MaxSetup=4, Menu=[op("J", 1, 2), op("J", 2, 3), op("A", 3, n=1), op("R", 2, acc="ToSnapshot")],
+                      NProcs=2 if q else 3, FixedSetup=[("A", 1, 1), ("J", 3, 1), ("A", 3, 1), ("A", 2, 1)]))
     return plans
 
 
